@@ -250,7 +250,7 @@ pub fn build_h1(p: H1P) -> Scenario<Arc<H1>> {
     };
     Scenario {
         name: p.name.to_string(),
-        opts: Opts { stale_reads: p.stale, stale_depth: 3, max_spurious: 0, horizon: 5_000, log_ops: false, log_handler_ops: false, reduce: false, no_discipline: false, nest_value_t1: 0, post_points: false },
+        opts: Opts { stale_reads: p.stale, stale_depth: 3, max_spurious: 0, horizon: 5_000, log_ops: false, log_handler_ops: false, reduce: false, no_discipline: false, nest_value_t1: 0, post_points: false, no_race_check: false, start_points: false },
         signals: vec![S1],
         setup: Box::new(setup),
         threads,
@@ -301,6 +301,12 @@ fn run_mops(s: &RS, ops: &[MOp], pause: bool) {
                 sched::log("reg_call", *tag, *sig as u64);
                 let id = unsafe { reg::register(*sig, make_action(*tag, pause)) }.expect("register");
                 s.ids.lock().unwrap().insert(*tag, id);
+                {
+                    use std::hash::{Hash, Hasher};
+                    let mut h = std::collections::hash_map::DefaultHasher::new();
+                    id.hash(&mut h);
+                    sched::log("reg_id", *tag, h.finish());
+                }
                 sched::log("reg_ret", *tag, *sig as u64);
             }
             MOp::Unreg(tag) => {
@@ -607,6 +613,37 @@ fn check_registry(log: &[Ev], p: &RP, e: &Exec) -> Result<u64, String> {
             }
         }
     }
+    // --- C05 (schedules): independence and unique ids under concurrent mutators
+    if p.prop == "C05" {
+        // every id handed out is distinct (the harness logs a hash of each SigId with reg_ret)
+        let mut seen: Vec<u64> = Vec::new();
+        for ev in log {
+            if ev.tag == "reg_id" {
+                if seen.contains(&ev.b) {
+                    return Err(format!("C05: registration of action {} returned an id that had been handed out before", ev.a));
+                }
+                seen.push(ev.b);
+            }
+            if ev.tag == "unreg_ret" && ev.b == 0 && ev.tid != 0 {
+                // the mutators here only remove actions that are registered and that nobody else removes
+                return Err(format!("C05: unregister of the live action {} returned false", ev.a));
+            }
+        }
+        // each probe delivery made by the finish phase runs exactly the live actions, in order
+        for d in deliveries.iter().filter(|d| log[d.begin].tid == 0) {
+            let ran: Vec<u64> = d.acts.iter().map(|x| x.0).collect();
+            let mut want: Vec<(usize, u64)> = acts.iter().filter(|(_, a)| a.sig == d.sig && a.reg_ret < d.begin && (a.rm_ret == usize::MAX || a.rm_ret > d.end)).map(|(t, a)| (a.reg_call, *t)).collect();
+            want.sort();
+            let want: Vec<u64> = want.into_iter().map(|x| x.1).collect();
+            let mut r2 = ran.clone();
+            r2.sort();
+            let mut w2 = want.clone();
+            w2.sort();
+            if r2 != w2 {
+                return Err(format!("C05: after concurrent mutators returned, a delivery of signal {} runs actions {:?} but the registered ones are {:?} (an operation on one action / signal changed another)", d.sig, ran, want));
+            }
+        }
+    }
     // --- C03 (registry part): step bound of solo deliveries
     if p.prop == "C03" {
         for d in &deliveries {
@@ -674,6 +711,11 @@ pub fn build_reg(p: RP) -> Scenario<Arc<RS>> {
     }
     let pf = p.clone();
     let finish = move |s: Arc<RS>, e: &mut Exec| -> Result<u64, String> {
+        if pf.prop == "C05" {
+            for sg in [S1, S2] {
+                sched::setup_raise(sg);
+            }
+        }
         // remove whatever is left so that end-state accounting applies
         let ids: Vec<(u64, reg::SigId)> = s.ids.lock().unwrap().iter().map(|(k, v)| (*k, *v)).collect();
         for (tag, id) in ids {
@@ -703,7 +745,7 @@ pub fn build_reg(p: RP) -> Scenario<Arc<RS>> {
     };
     Scenario {
         name: p.name.to_string(),
-        opts: Opts { stale_reads: p.stale, stale_depth: 3, max_spurious: 0, horizon: 20_000, log_ops: false, log_handler_ops: false, reduce: false, no_discipline: false, nest_value_t1: 0, post_points: false },
+        opts: Opts { stale_reads: p.stale, stale_depth: 3, max_spurious: 0, horizon: 20_000, log_ops: false, log_handler_ops: false, reduce: false, no_discipline: false, nest_value_t1: 0, post_points: false, no_race_check: false, start_points: false },
         signals: vec![S1, S2],
         setup: Box::new(setup),
         threads,
@@ -764,7 +806,7 @@ pub fn build_relay_h1(name: &'static str, stores: u32) -> Scenario<Arc<Relay>> {
     };
     Scenario {
         name: name.to_string(),
-        opts: Opts { stale_reads: false, stale_depth: 2, max_spurious: 0, horizon: 3_000, log_ops: false, log_handler_ops: false, reduce: false, no_discipline: false, nest_value_t1: 0, post_points: false },
+        opts: Opts { stale_reads: false, stale_depth: 2, max_spurious: 0, horizon: 3_000, log_ops: false, log_handler_ops: false, reduce: false, no_discipline: false, nest_value_t1: 0, post_points: false, no_race_check: false, start_points: false },
         signals: vec![S1],
         setup: Box::new(setup),
         threads: vec![reader("R1"), reader("R2"), writer],
@@ -819,7 +861,7 @@ pub fn build_relay_reg(name: &'static str) -> Scenario<Arc<RelayReg>> {
     };
     Scenario {
         name: name.to_string(),
-        opts: Opts { stale_reads: false, stale_depth: 2, max_spurious: 0, horizon: 6_000, log_ops: false, log_handler_ops: false, reduce: false, no_discipline: true, nest_value_t1: 0, post_points: false },
+        opts: Opts { stale_reads: false, stale_depth: 2, max_spurious: 0, horizon: 6_000, log_ops: false, log_handler_ops: false, reduce: false, no_discipline: true, nest_value_t1: 0, post_points: false, no_race_check: false, start_points: false },
         signals: vec![S1, S2],
         setup: Box::new(setup),
         threads: vec![deliverer("D1", S1), deliverer("D2", S2), mutator],
@@ -873,7 +915,7 @@ pub fn build_owner_drop(name: &'static str) -> Scenario<Arc<Owner>> {
     };
     Scenario {
         name: name.to_string(),
-        opts: Opts { stale_reads: true, stale_depth: 3, max_spurious: 0, horizon: 20_000, log_ops: false, log_handler_ops: false, reduce: false, no_discipline: false, nest_value_t1: 0, post_points: false },
+        opts: Opts { stale_reads: true, stale_depth: 3, max_spurious: 0, horizon: 20_000, log_ops: false, log_handler_ops: false, reduce: false, no_discipline: false, nest_value_t1: 0, post_points: false, no_race_check: false, start_points: false },
         signals: vec![S1, S2],
         setup: Box::new(setup),
         threads: vec![m, d("D1", vec![S1, S2]), d("D2", vec![S2])],
@@ -973,7 +1015,7 @@ pub fn build_iter_live(name: &'static str) -> Scenario<Arc<Owner>> {
     };
     Scenario {
         name: name.to_string(),
-        opts: Opts { stale_reads: false, stale_depth: 2, max_spurious: 0, horizon: 20_000, log_ops: false, log_handler_ops: false, reduce: true, no_discipline: false, nest_value_t1: 0, post_points: false },
+        opts: Opts { stale_reads: false, stale_depth: 2, max_spurious: 0, horizon: 20_000, log_ops: false, log_handler_ops: false, reduce: true, no_discipline: false, nest_value_t1: 0, post_points: false, no_race_check: false, start_points: false },
         signals: vec![S1, S2],
         setup: Box::new(setup),
         threads: vec![a, b, d],
@@ -1082,12 +1124,35 @@ pub fn scenarios(prop: &str, tier: Tier) -> Vec<Item> {
                 p.nest = vec![sig];
                 v.push(item(build_reg(p), b(2, 3), "first registration (with a concurrent first registration of another signal) vs deliveries at every instant"));
             }
+            // histories after the takeover: all actions removed, the signal registered again, another
+            // signal registered for the first time - the chained handler must keep being called
+            for (name, d) in [("chain_after_unregister_all_plain", Disp::Plain), ("chain_after_unregister_all_siginfo", Disp::Info)] {
+                let mut p = rp(name, "C04");
+                p.disps = vec![(S1, d), (S2, Disp::Plain)];
+                p.pre = vec![Reg(S1, 1), Unreg(1)];
+                p.mutators = vec![vec![Reg(S1, 2), UnregSig(S1), Reg(S1, 3)], vec![Reg(S2, 5)]];
+                p.deliverers = vec![vec![S1, S1]];
+                p.nest = vec![S1];
+                v.push(item(build_reg(p), b(2, 3), "after register + unregister of everything: re-registration, unregister_signal, another signal's first registration vs deliveries"));
+            }
             let mut p = rp("chain_two_signals_both_foreign", "C04");
             p.disps = vec![(S1, Disp::Info), (S2, Disp::Plain)];
             p.mutators = vec![vec![Reg(S1, 1)], vec![Reg(S2, 5)]];
             p.deliverers = vec![vec![S1, S2], vec![S2, S1]];
             p.nest = vec![S1, S2];
             v.push(item(build_reg(p), b(2, 3), "two first registrations contending for the fallback; deliveries of both signals"));
+        }
+        "C05" => {
+            let mut p = rp("concurrent_unregister_vs_register_other_signal", "C05");
+            p.pre = vec![Reg(S1, 1), Reg(S1, 2), Reg(S2, 5)];
+            p.mutators = vec![vec![Unreg(1), Reg(S1, 3)], vec![Reg(S2, 6), Unreg(5), Reg(S2, 7)]];
+            p.deliverers = vec![vec![S1, S2]];
+            v.push(item(build_reg(p), b(2, 3), "two mutators on two signals (unregister / register) + a delivery thread; afterwards probe deliveries must run exactly the registered actions, ids all distinct"));
+            let mut p = rp("concurrent_same_signal", "C05");
+            p.pre = vec![Reg(S1, 1), Reg(S1, 2)];
+            p.mutators = vec![vec![Unreg(1), Reg(S1, 3)], vec![Reg(S1, 6), Unreg(2)]];
+            p.deliverers = vec![vec![S1]];
+            v.push(item(build_reg(p), b(2, 3), "two mutators on one signal"));
         }
         "C18" => {
             v.push(item(build_h1(H1P { name: "live_h1_1w1_2r1_all", writers: vec![1], readers: vec![1, 1], nest_writer: false, stale: false }), if q { Some(3) } else { Some(5) }, "half-lock: writer must terminate against 2 readers"));
